@@ -2,30 +2,200 @@ package main
 
 import (
 	_ "embed"
+	"fmt"
+	"go/types"
+	"sort"
 	"strings"
 
 	"golang.org/x/tools/go/ssa"
 )
 
-// baseline_funcs.txt lists the functions of geom/rtree/carto on the tree the
-// rule specifications were written against (sfcheck dump -names). A repository
-// function that is NOT in the list is a helper introduced later (extracted from
-// or renamed after a function the specifications know): the K4 interpreter
-// inlines such helpers instead of treating them as opaque, so extracting part
-// of an interpreted function into a new helper does not change what is decided.
+// baseline_funcs.txt describes the tree the rule specifications were written
+// against (`sfcheck dump -baseline`):
+//
+//	F <canonical function name> <signature, types only>
+//	S <pkg.Type> <field:type,field:type,…>
+//
+// It is used for two things, both of which make the checker indifferent to
+// edits that do not change behaviour:
+//
+//   - helpers: a repository function that the baseline does not know is a
+//     helper introduced later (extracted from a function the specifications
+//     know); the K4 interpreter inlines it, and a few rules follow calls into it;
+//   - renames: a baseline function that no longer exists and a new function with
+//     the same package, receiver and signature (when the match is unique both
+//     ways) are the same function under a new name; likewise for the fields of a
+//     struct type. FuncName and fieldName report the baseline name, so anchors,
+//     tables and model keys keep resolving.
 //
 //go:embed baseline_funcs.txt
 var baselineFuncsText string
 
-var baselineFuncs = func() map[string]bool {
-	m := map[string]bool{}
+var (
+	baselineFuncs   = map[string]bool{}     // canonical names (top-level functions and methods)
+	baselineSigs    = map[string]string{}   // name -> signature
+	baselineStructs = map[string][]string{} // pkg.Type -> ["field:type", …]
+)
+
+func init() {
 	for _, l := range strings.Split(baselineFuncsText, "\n") {
-		if l = strings.TrimSpace(l); l != "" {
-			m[l] = true
+		f := strings.SplitN(strings.TrimSpace(l), "\t", 3)
+		switch {
+		case len(f) == 3 && f[0] == "F":
+			baselineFuncs[f[1]] = true
+			baselineSigs[f[1]] = f[2]
+		case len(f) == 3 && f[0] == "S":
+			baselineStructs[f[1]] = strings.Split(f[2], ",")
 		}
 	}
-	return m
-}()
+}
+
+// renamedFuncs: current function -> baseline name; renamedFields: field object
+// -> baseline name. Filled by detectRenames for the program being analysed.
+var (
+	renamedFuncs  = map[*ssa.Function]string{}
+	renamedFields = map[*types.Var]string{}
+	renameNotes   []string
+)
+
+func sigString(sig *types.Signature) string {
+	q := func(p *types.Package) string { return p.Name() }
+	var ps, rs []string
+	for i := 0; i < sig.Params().Len(); i++ {
+		t := types.TypeString(sig.Params().At(i).Type(), q)
+		if sig.Variadic() && i == sig.Params().Len()-1 {
+			t = "..." + t
+		}
+		ps = append(ps, t)
+	}
+	for i := 0; i < sig.Results().Len(); i++ {
+		rs = append(rs, types.TypeString(sig.Results().At(i).Type(), q))
+	}
+	return "(" + strings.Join(ps, ",") + ")(" + strings.Join(rs, ",") + ")"
+}
+
+// ownerOf splits a canonical name into its owner ("geom.(*wkbParser)" or
+// "geom") and the bare function name.
+func ownerOf(name string) string {
+	if i := strings.LastIndex(name, "."); i >= 0 {
+		return name[:i]
+	}
+	return ""
+}
+
+func structKey(nt *types.Named) string {
+	if nt.Obj().Pkg() == nil {
+		return nt.Obj().Name()
+	}
+	return nt.Obj().Pkg().Name() + "." + nt.Obj().Name()
+}
+
+func structFieldStrings(st *types.Struct) []string {
+	q := func(p *types.Package) string { return p.Name() }
+	var out []string
+	for i := 0; i < st.NumFields(); i++ {
+		out = append(out, st.Field(i).Name()+":"+types.TypeString(st.Field(i).Type(), q))
+	}
+	return out
+}
+
+// detectRenames matches vanished baseline names with new names of identical
+// shape. Called once per loaded program, before names are indexed.
+func detectRenames(p *Program) {
+	renamedFuncs = map[*ssa.Function]string{}
+	renamedFields = map[*types.Var]string{}
+	renameNotes = nil
+	if len(baselineFuncs) == 0 {
+		return
+	}
+	// functions
+	cur := map[string]*ssa.Function{}
+	for _, f := range p.Funcs {
+		if f.Parent() == nil {
+			cur[rawFuncName(f)] = f
+		}
+	}
+	type key struct{ owner, sig string }
+	missing := map[key][]string{}
+	for n := range baselineFuncs {
+		if _, ok := cur[n]; !ok {
+			k := key{ownerOf(n), baselineSigs[n]}
+			missing[k] = append(missing[k], n)
+		}
+	}
+	fresh := map[key][]*ssa.Function{}
+	for n, f := range cur {
+		if !baselineFuncs[n] {
+			k := key{ownerOf(n), sigString(f.Signature)}
+			fresh[k] = append(fresh[k], f)
+		}
+	}
+	for k, ms := range missing {
+		if fs := fresh[k]; len(ms) == 1 && len(fs) == 1 {
+			renamedFuncs[fs[0]] = ms[0]
+			renameNotes = append(renameNotes, fmt.Sprintf("function %s is treated as the baseline's %s (same owner and signature, renamed)", rawFuncName(fs[0]), ms[0]))
+		}
+	}
+	// struct fields
+	for _, pk := range p.Pkgs {
+		scope := pk.Types.Scope()
+		for _, n := range scope.Names() {
+			tn, ok := scope.Lookup(n).(*types.TypeName)
+			if !ok {
+				continue
+			}
+			nt, ok := tn.Type().(*types.Named)
+			if !ok {
+				continue
+			}
+			st, ok := nt.Underlying().(*types.Struct)
+			if !ok {
+				continue
+			}
+			base, ok := baselineStructs[structKey(nt)]
+			if !ok {
+				continue
+			}
+			have := map[string]bool{}
+			for i := 0; i < st.NumFields(); i++ {
+				have[st.Field(i).Name()] = true
+			}
+			baseNames := map[string]bool{}
+			missT := map[string][]string{} // type -> vanished baseline field names
+			for _, ft := range base {
+				parts := strings.SplitN(ft, ":", 2)
+				baseNames[parts[0]] = true
+				if !have[parts[0]] {
+					missT[parts[1]] = append(missT[parts[1]], parts[0])
+				}
+			}
+			q := func(p *types.Package) string { return p.Name() }
+			freshT := map[string][]*types.Var{}
+			for i := 0; i < st.NumFields(); i++ {
+				fv := st.Field(i)
+				if !baseNames[fv.Name()] {
+					ts := types.TypeString(fv.Type(), q)
+					freshT[ts] = append(freshT[ts], fv)
+				}
+			}
+			for ts, ms := range missT {
+				if fs := freshT[ts]; len(ms) == 1 && len(fs) == 1 {
+					renamedFields[fs[0]] = ms[0]
+					renameNotes = append(renameNotes, fmt.Sprintf("field %s.%s is treated as the baseline's %s (same type, renamed)", structKey(nt), fs[0].Name(), ms[0]))
+				}
+			}
+		}
+	}
+	sort.Strings(renameNotes)
+}
+
+// canonFieldName: the baseline name of a struct field.
+func canonFieldName(fv *types.Var) string {
+	if n, ok := renamedFields[fv]; ok {
+		return n
+	}
+	return fv.Name()
+}
 
 // isNewHelper: a repository function with a body that the baseline does not know.
 func isNewHelper(f *ssa.Function) bool {
@@ -42,4 +212,30 @@ func isNewHelper(f *ssa.Function) bool {
 		root = root.Parent()
 	}
 	return !baselineFuncs[FuncName(root)]
+}
+
+// dumpBaseline prints the baseline description of the loaded program.
+func dumpBaseline(p *Program) {
+	var lines []string
+	for _, f := range p.Funcs {
+		if f.Parent() == nil {
+			lines = append(lines, "F\t"+rawFuncName(f)+"\t"+sigString(f.Signature))
+		}
+	}
+	for _, pk := range p.Pkgs {
+		scope := pk.Types.Scope()
+		for _, n := range scope.Names() {
+			if tn, ok := scope.Lookup(n).(*types.TypeName); ok {
+				if nt, ok := tn.Type().(*types.Named); ok {
+					if st, ok := nt.Underlying().(*types.Struct); ok && st.NumFields() > 0 {
+						lines = append(lines, "S\t"+structKey(nt)+"\t"+strings.Join(structFieldStrings(st), ","))
+					}
+				}
+			}
+		}
+	}
+	sort.Strings(lines)
+	for _, l := range lines {
+		fmt.Println(l)
+	}
 }
